@@ -599,6 +599,7 @@ package evaluator
 //@   modifies nothing
 //@   loop 0: invariant fresh(newElems) && argsLen == len(args) && len(newElems) == len(elems)+argsLen && forall(k, 0, argsLen+rangeindex+1, newElems[k] != nil)
 //@ func floatIntFunc
+//@   goal usual-conversion: result1 == nil && istype(result0, *object.Int) && as(result0, *object.Int).Value == f2i(as(receiver, *object.Float).Value)
 //@   ints wrap64
 //@   requires receiver != nil && istype(receiver, *object.Float)
 //@   ensures result1 == nil ==> result0 != nil
@@ -614,21 +615,25 @@ package evaluator
 //@   ensures result1 == nil ==> result0 != nil
 //@   modifies nothing
 //@ func floatCeilFunc
+//@   goal usual-conversion: result1 == nil && istype(result0, *object.Int) && as(result0, *object.Int).Value == f2i(lib("math.Ceil", as(receiver, *object.Float).Value))
 //@   ints wrap64
 //@   requires receiver != nil && istype(receiver, *object.Float)
 //@   ensures result1 == nil ==> result0 != nil
 //@   modifies nothing
 //@ func floatFloorFunc
+//@   goal usual-conversion: result1 == nil && istype(result0, *object.Int) && as(result0, *object.Int).Value == f2i(lib("math.Floor", as(receiver, *object.Float).Value))
 //@   ints wrap64
 //@   requires receiver != nil && istype(receiver, *object.Float)
 //@   ensures result1 == nil ==> result0 != nil
 //@   modifies nothing
 //@ func floatRoundFunc
+//@   goal usual-conversion: result1 == nil && istype(result0, *object.Int) && as(result0, *object.Int).Value == f2i(lib("math.Round", as(receiver, *object.Float).Value))
 //@   ints wrap64
 //@   requires receiver != nil && istype(receiver, *object.Float)
 //@   ensures result1 == nil ==> result0 != nil
 //@   modifies nothing
 //@ func intFloatFunc
+//@   goal usual-conversion: result1 == nil && istype(result0, *object.Float) && same(as(result0, *object.Float).Value, i2f(as(receiver, *object.Int).Value))
 //@   ints wrap64
 //@   requires receiver != nil && istype(receiver, *object.Int)
 //@   ensures result1 == nil ==> result0 != nil
@@ -640,6 +645,7 @@ package evaluator
 //@   ensures result1 == nil ==> result0 != nil
 //@   modifies nothing
 //@ func intStrFunc
+//@   goal usual-conversion: result1 == nil && istype(result0, *object.Str) && as(result0, *object.Str).Value == lib("strconv.FormatInt", as(receiver, *object.Int).Value, 10)
 //@   ints wrap64
 //@   requires receiver != nil && istype(receiver, *object.Int)
 //@   ensures result1 == nil ==> result0 != nil
